@@ -611,22 +611,74 @@ pub fn to_obj(nodes: &[Node]) -> InMemDicomObject {
     InMemDicomObject::from_element_iter(nodes.iter().map(to_element))
 }
 
-/// Reference tree. `explicit_mask`: bit i set = container i (in pre-order: sequence, then its items)
-/// has a defined length.
+/// Reference tree as it appears ON THE WIRE. `explicit_mask`: bit i set = container i (in pre-order:
+/// sequence, then its items) has a defined length. Text of the charset-dependent VRs is transcoded
+/// from the atom's UTF-8 bytes into the Specific Character Set in effect (set by a preceding
+/// (0008,0005) at top level, inherited by items) with a small independent encoder.
 pub fn to_ref(nodes: &[Node], explicit_mask: u32) -> Vec<RElem> {
     let mut counter = 0u32;
-    to_ref_inner(nodes, explicit_mask, &mut counter)
+    to_ref_inner(nodes, explicit_mask, &mut counter, &mut RefCs::Default, true)
+}
+/// Reference tree in canonical (in-memory) space: text stays UTF-8, as `canon(obj)` yields it.
+pub fn to_ref_canon(nodes: &[Node], explicit_mask: u32) -> Vec<RElem> {
+    let mut counter = 0u32;
+    to_ref_inner(nodes, explicit_mask, &mut counter, &mut RefCs::Default, false)
 }
 pub fn count_containers(nodes: &[Node]) -> u32 {
     let mut c = 0;
-    to_ref_inner(nodes, 0, &mut c);
+    to_ref_inner(nodes, 0, &mut c, &mut RefCs::Default, false);
     c
 }
-fn to_ref_inner(nodes: &[Node], mask: u32, counter: &mut u32) -> Vec<RElem> {
+
+#[derive(Clone, Copy, PartialEq, Eq, Debug)]
+pub enum RefCs {
+    Default,
+    Latin1,
+    Cyrillic,
+    Utf8,
+}
+
+/// Independent text encoder for the three non-default sets the universes use.
+pub fn ref_encode_text(cs: RefCs, utf8: &[u8]) -> Vec<u8> {
+    let s = std::str::from_utf8(utf8).expect("atom text is UTF-8");
+    match cs {
+        RefCs::Default | RefCs::Utf8 => utf8.to_vec(),
+        RefCs::Latin1 => s.chars().map(|c| u8::try_from(c as u32).expect("latin-1 repertoire")).collect(),
+        RefCs::Cyrillic => s
+            .chars()
+            .map(|c| {
+                let cp = c as u32;
+                match cp {
+                    0..=0xA0 => cp as u8,
+                    0x0401..=0x040C | 0x040E..=0x044F => (cp - 0x0400 + 0xA0) as u8,
+                    0x0451..=0x045C | 0x045E..=0x045F => (cp - 0x0450 + 0xF0) as u8,
+                    _ => panic!("not in ISO 8859-5"),
+                }
+            })
+            .collect(),
+    }
+}
+
+fn charset_dependent(vr: &str) -> bool {
+    matches!(vr, "LO" | "LT" | "PN" | "SH" | "ST" | "UC" | "UT")
+}
+
+fn to_ref_inner(nodes: &[Node], mask: u32, counter: &mut u32, cs: &mut RefCs, wire: bool) -> Vec<RElem> {
     nodes
         .iter()
         .map(|n| match n {
-            Node::Prim(a) => RElem { tag: a.tag, vr: rds::vr(a.vr), val: RVal::Prim(a.le.clone()) },
+            Node::Prim(a) => {
+                if a.tag == (0x0008, 0x0005) {
+                    *cs = match a.le.as_slice() {
+                        b"ISO_IR 100" => RefCs::Latin1,
+                        b"ISO_IR 144" => RefCs::Cyrillic,
+                        b"ISO_IR 192" => RefCs::Utf8,
+                        _ => RefCs::Default,
+                    };
+                }
+                let bytes = if wire && charset_dependent(a.vr) && !a.le.is_ascii() { ref_encode_text(*cs, &a.le) } else { a.le.clone() };
+                RElem { tag: a.tag, vr: rds::vr(a.vr), val: RVal::Prim(bytes) }
+            }
             Node::Seq { tag, items, .. } => {
                 let explicit = mask & (1 << *counter) != 0;
                 *counter += 1;
@@ -635,7 +687,8 @@ fn to_ref_inner(nodes: &[Node], mask: u32, counter: &mut u32) -> Vec<RElem> {
                     .map(|it| {
                         let e = mask & (1 << *counter) != 0;
                         *counter += 1;
-                        RItem { elems: to_ref_inner(it, mask, counter), explicit: e }
+                        let mut inner_cs = *cs;
+                        RItem { elems: to_ref_inner(it, mask, counter, &mut inner_cs, wire), explicit: e }
                     })
                     .collect();
                 RElem { tag: *tag, vr: *b"SQ", val: RVal::Seq { items, explicit } }
@@ -647,6 +700,39 @@ fn to_ref_inner(nodes: &[Node], mask: u32, counter: &mut u32) -> Vec<RElem> {
             },
         })
         .collect()
+}
+
+/// Data sets with a Specific Character Set and non-ASCII text: every charset-dependent VR x
+/// {1, 2, 3 non-ASCII characters, mixed, multi-valued} so that the encoded length parity differs
+/// from the UTF-8 length parity in both directions; plus one nested item inheriting the set.
+pub fn ds_charset() -> Vec<Vec<Node>> {
+    let mut out = vec![];
+    let sets: [(&'static str, [&'static str; 6]); 3] = [
+        ("ISO_IR 100", ["\u{fc}", "\u{fc}b", "\u{fc}\u{e9}", "M\u{fc}ller^Hans", "\u{fc}\u{e9}\u{e0}", "ab\u{e7}d"]),
+        ("ISO_IR 192", ["\u{fc}", "\u{fc}b", "\u{20ac}", "M\u{fc}ller^Hans", "\u{1F600}x", "ab\u{e7}d"]),
+        ("ISO_IR 144", ["\u{416}", "\u{416}b", "\u{416}\u{44f}", "\u{41c}\u{44e}^Hans", "\u{401}\u{451}\u{45f}", "ab\u{436}d"]),
+    ];
+    for (term, texts) in sets {
+        let cs_atom = Atom { tag: (0x0008, 0x0005), vr: "CS", value: PrimitiveValue::Str(term.into()), le: term.as_bytes().to_vec(), shape: "charset-term", tclass: "charset" };
+        for vr in ["LO", "SH", "PN", "LT", "ST", "UT", "UC"] {
+            let multi_ok = matches!(vr, "LO" | "SH" | "PN" | "UC");
+            for t in texts {
+                let a = Atom { tag: std_tag(vr), vr, value: PrimitiveValue::Str(t.to_string()), le: t.as_bytes().to_vec(), shape: "non-ascii", tclass: "charset-text" };
+                out.push(normalize(vec![Node::Prim(cs_atom.clone()), Node::Prim(a)]).unwrap());
+            }
+            if multi_ok {
+                for pair in [[texts[0], "ab"], [texts[2], texts[1]]] {
+                    let a = Atom { tag: std_tag(vr), vr, value: strs(&pair), le: pair.join("\\").into_bytes(), shape: "non-ascii-multi", tclass: "charset-text" };
+                    out.push(normalize(vec![Node::Prim(cs_atom.clone()), Node::Prim(a)]).unwrap());
+                }
+            }
+        }
+        // restricted VR next to it stays default repertoire; text inside an item inherits the set
+        let inner = Atom { tag: std_tag("LO"), vr: "LO", value: PrimitiveValue::Str(texts[0].to_string()), le: texts[0].as_bytes().to_vec(), shape: "non-ascii", tclass: "charset-text" };
+        let da = Atom { tag: std_tag("DA"), vr: "DA", value: PrimitiveValue::Str("20200101".into()), le: b"20200101".to_vec(), shape: "even", tclass: "std" };
+        out.push(normalize(vec![Node::Prim(cs_atom.clone()), Node::Prim(da), Node::Seq { tag: SQ_STD, items: vec![vec![Node::Prim(inner)]], tclass: "std" }]).unwrap());
+    }
+    out
 }
 
 // ---------------------------------------------------------------------------------------------
@@ -776,7 +862,10 @@ pub fn compare(expected: &[RElem], got: &[RElem], mode: VrMode, dict: &Dict, sig
         match (&e.val, &g.val) {
             (RVal::Prim(eb), RVal::Prim(gb)) => {
                 let mut ok = eb == gb;
-                if !ok && eb.len() % 2 == 1 && gb.len() == eb.len() + 1 && gb[..eb.len()] == eb[..] {
+                // text in a non-default character set: the parity of the encoded length can differ from
+                // the parity of the UTF-8 length, so a kept padding space is accepted for either parity there
+                let non_ascii_text = !eb.is_ascii() && rds::pad_byte(e.vr) == b' ';
+                if !ok && (eb.len() % 2 == 1 || non_ascii_text) && gb.len() == eb.len() + 1 && gb[..eb.len()] == eb[..] {
                     // padding kept by the reader: must be the pad byte of the VR it was written with
                     ok = gb[eb.len()] == rds::pad_byte(e.vr);
                 }
